@@ -877,11 +877,18 @@ def variant_edges(body, adt, src_pats, variant):
 # ------------------------------------------------------------------ value expression trees (AFFINE / strict CMP)
 
 TRANSPARENT = rx(r"(::to_owned|::clone|Deref::deref|DerefMut::deref_mut|::as_ref|::borrow|::into|::from|::unwrap|::expect|::copied|::cloned|::to_entity|::as_reader|"
-                 r"Try::branch|::unpack|::pack|::shannons|::into_inner|::get_ref|::as_slice|::as_u64|::to_vec|::full_value)$")
+                 r"Try::branch|::unpack|::pack|::shannons|Arc::<.*>::new|Atomic(U64|::<u64>)::new|::into_inner|::get_ref|::as_slice|::as_u64|::to_vec|::full_value)$")
 ARITH_CALL = rx(r"(arith::(Add|Sub|Mul|Div|Rem)(<.*>)?::(add|sub|mul|div|rem)|::(saturating|checked|wrapping|overflowing)_(add|sub|mul|div|pow)|cmp::(max|min)|Ord::(max|min)|"
                 r"::(safe_add|safe_sub|safe_mul|safe_div|safe_mul_ratio)|::(pow|abs_diff))$")
 VALUE_COMB = rx(r"(Result|Option)::<.*>::(and_then|map|map_err|ok_or|ok_or_else|or_else|unwrap_or|unwrap_or_else|unwrap_or_default)$|::try_from$|::try_into$")
 ARITH_OPS = {"Add", "Sub", "Mul", "Div", "Rem", "AddWithOverflow", "SubWithOverflow", "MulWithOverflow", "AddUnchecked", "SubUnchecked", "MulUnchecked", "Shl", "Shr", "BitAnd", "BitOr", "BitXor"}
+
+
+def _proj_compatible(a, b):
+    a = [x for x in a if x != "*"]
+    b = [x for x in b if x != "*"]
+    n = min(len(a), len(b))
+    return a[:n] == b[:n]
 
 
 def expr_sig(body, op, depth=0, seen=None, out=None):
@@ -919,6 +926,9 @@ def expr_sig(body, op, depth=0, seen=None, out=None):
             if d[2][1] and not projs:
                 # partial write into an aggregate: ignore for scalar value chains
                 continue
+            if d[2][1] and projs and not _proj_compatible(d[2][1], projs):
+                # write to a different field of the same aggregate
+                continue
             rv = d[3]
             k = rv.get("k")
             if k in ("use", "cast", "repeat"):
@@ -937,7 +947,8 @@ def expr_sig(body, op, depth=0, seen=None, out=None):
                     out.append("op:neg")
                 expr_sig(body, rv["a"], depth + 1, seen, out)
             elif k == "agg":
-                if rv.get("ak") == "tuple" or rv.get("variant") in ("Some", "Ok"):
+                if rv.get("ak") == "tuple" or rv.get("variant") in ("Some", "Ok") or (rv.get("ak") == "adt" and len(rv.get("ops", [])) == 1):
+                    # tuples and single-payload wrappers (Some(x), SeekFrom::Start(x), Capacity(x)) carry their payload's form
                     for o in rv.get("ops", []):
                         expr_sig(body, o, depth + 1, seen, out)
                 else:
@@ -947,6 +958,8 @@ def expr_sig(body, op, depth=0, seen=None, out=None):
         else:
             c = d[2]
             nm = c.res or c.callee
+            if c.dest and c.dest[1] and projs and not _proj_compatible(c.dest[1], projs):
+                continue
             if ARITH_CALL.search(c.callee) or (c.res and ARITH_CALL.search(c.res)):
                 m = ARITH_CALL.search(c.callee) or ARITH_CALL.search(c.res)
                 out.append("op:" + c.callee.split("::")[-1])
